@@ -29,6 +29,12 @@ def run(ctx):
         check_next(ctx, F, A)
         check_kinds(ctx, F, A)
         check_io_source(ctx, F, A)
+        from .decoder import Anchors, check_final_reset, NOD
+        an = Anchors(F)
+        A.invariant(NOD)
+        ctx.rule("R-C11-FINAL", "finalize() and reset() report the same pending-byte count from every decoder state (what the reader "
+                 "front-ends attach to an I/O error / EOF equals what the iterator front-ends report as trailing DiscardedBytes)")
+        check_final_reset(ctx, A, F, an, "R-C11-FINAL")
     except (AnchorMissing, Unsupported, KeyError) as e:
         ctx.violation("ANCHOR-MISSING", "reader", ("", 0, ""), "%s: %s" % (type(e).__name__, e))
     ctx.assumptions = [ASSUMPTIONS[k] for k in ("A1", "A2", "A4", "A6")]
